@@ -218,14 +218,14 @@ def subset(check, prog):
             "F.sizes['flat']", "len(F.flat)", "len(F['flat'])", "F.flat.size",
             "len(data.x) * len(data.y) * len(data.z)")]
         okp = any(canon.equal(n, w_) for w_ in wants)
-        check.require(okp and len(args) > 1 and
-                      args[1] == sym('pixels'), 'D2-distinct-pixels',
+        count = args[1] if len(args) > 1 else dict(c['kwargs']).get('size')
+        check.require(okp and count == sym('pixels'), 'D2-distinct-pixels',
                       'make_subset_data population',
                       '`pixels` indices out of the length of the flattened pixel axis',
                       loc,
                       fail_detail='draws %s from %s, but the indices select along the '
                       'flattened (x, y, z) axis' % (
-                          show(args[1])[:40] if len(args) > 1 else None,
+                          show(count)[:40] if count is not None else None,
                           show(n)[:80]))
     rets = [o for o in res.returns if o.value != sym('data')]
     first = [o for o in res.returns if o.value == sym('data')]
